@@ -188,6 +188,13 @@ func getObjPrototype() *Value {
 						if err != nil {
 							return nil, err
 						}
+						if val != nil && this.Tag == ValueObj {
+							// only the object's own keys count: a key it doesn't have is
+							// absent even when the prototype has a method of that name
+							if _, own := (*this.Obj)[value.String()]; !own {
+								val = nil
+							}
+						}
 
 						if val == nil {
 							_, err = newObj.SetMember(*value, NewCell(NewValue(nil)))
